@@ -167,6 +167,9 @@ def _makemap_repeated(opts, k):
     o.readubis(opts.ubifile)
     o.tolerance = float(opts.tol)
     o.generate_grains()
+    # a snapshot of the starting state is saved first (it is written with the orientation of every grain as it is now)
+    o.assignlabels()
+    o.savegrains(opts.newubifile + ".start", sort_npks=False)
     for _ in range(k):
         o.refinepositions()
     o.savegrains(opts.newubifile, sort_npks=opts.sort_npks)
@@ -282,6 +285,16 @@ def run_case(sh, mods, pars, ng, omfloat, case, passes=3, with_translation=True,
         with contextlib.redirect_stdout(io.StringIO()):
             flt = cf_mod.columnfile(os.path.join(wd, "p.flt.new"))
         ok = True
+        # the orientation line (#Rod) written above every matrix of the saved grain file is the Rodrigues vector of THAT matrix (a fresh
+        # grain object made from the saved matrix gives the reference)
+        rods = [[float(x) for x in line.split()[1:4]] for line in open(ubifile) if line.startswith("#Rod")]
+        if len(rods) == len(final):
+            for k, (rod, g_) in enumerate(zip(rods, final)):
+                want_rod = np.asarray(gm.grain(np.array(g_.ubi, float)).Rod, float)
+                if np.abs(np.asarray(rod) - want_rod).max() > 2e-5 * (1.0 + np.abs(want_rod).max()):
+                    sh.violation("saved-file:orientation-line-is-not-that-of-the-saved-matrix", dict(case, grain=k), {"written": rod, "of_the_saved_matrix": want_rod})
+                    ok = False
+                    break
         if len(final) != ng:
             sh.violation("pipeline:number-of-grains", case, {"saved": len(final), "expected": ng}); ok = False
         elif tie:
